@@ -589,7 +589,7 @@ func main() {
 			thorough := tier == "thorough"
 			small := []int{0, 1, 2, 3}
 			kc := kcAlphabet(small)
-			budget := 40 * time.Second
+			budget := 60 * time.Second
 			depth := 3
 			if thorough {
 				budget = 9 * time.Minute
